@@ -1,8 +1,10 @@
 CONSTANTS
   Limits = {1, 2, 3}
   Ts = {2, 3}
-  NCalls = 5
+  NCalls = 4
   NWakers = 2
+  CompleteTh = {0, 1, 2, 3, 4}
+  FailTh = {0, 1, 2, 3, 4}
   LateSlack = 1
   WithPollPending = TRUE
   TimeoutAfterErrorOnly = FALSE
@@ -12,7 +14,7 @@ CONSTANTS
   TimeoutFactor = 1
 SPECIFICATION Spec
 VIEW View
-INVARIANTS C18_ResolvesBy C18_GuardHeldWhileHandshaking C18_WakeOnRelease 
+INVARIANTS C18_ResolvesBy C18_GuardHeldWhileHandshaking C18_WakeOnRelease
 PROPERTIES C18_Steps
 
 CHECK_DEADLOCK FALSE
